@@ -7,6 +7,9 @@ GenInit == Init /\ hist = <<>>
 GenNext ==
     \/ \E k \in Kinds, c \in Cookies, o \in Origins, s \in Sites, pw \in Passwords, np \in Passwords, rt \in 1..NRoutes :
           /\ ~Ambiguous(o, s)
+          \* (bias: start with a successful login; only cookies that have been issued, junk or none)
+          /\ (Len(hist) = 0) => (k = "login" /\ pw = pwd /\ c = "none" /\ o = "none" /\ s = "absent")
+          /\ (Handle(c) # 0) => st[Handle(c)] # "unused"
           /\ (k # "get") => rt = 1
           /\ (k \notin {"login", "chpw"}) => pw = "p0"
           /\ (k # "chpw") => np = "p0"
